@@ -21,17 +21,27 @@ def functionMatch (s : Str) : Option (Str × Str) :=
     | [] => none
     | _ :: body => some (s.takeWhile (· ≠ '('), body.reverse)
 
+/-- `RELOP.search(s)` for `RELOP = (<=|<|>=|>|=~|=|!=)`: every alternative contains one of `<`, `>`, `=` -/
+def relopSearch (s : Str) : Bool := s.any fun c => c == '<' || c == '>' || c == '='
+
+/-- `is_call(s)` (since the repair): FUNCTION matches and no comparison precedes the first parenthesis
+    (`s.name="(a)"` is a selection whose constant holds parentheses, not a call) -/
+def isCallSel (s : Str) : Bool :=
+  match functionMatch s with
+  | some (name, _) => !relopSearch name
+  | none => false
+
 def isCallItem : ProjItem → Bool
   | .call _ => true
   | .path _ => false
 
-/-- `called = any(s for s in selection if FUNCTION.match(s)) or any(p for p in projection if isinstance(p, str))` -/
+/-- `called = any(s for s in selection if is_call(s)) or any(p for p in projection if isinstance(p, str))` -/
 def hasCall (proj : List ProjItem) (sel : List Str) : Bool :=
-  sel.any (fun s => (functionMatch s).isSome) || proj.any isCallItem
+  sel.any isCallSel || proj.any isCallItem
 
-/-- the query string of the inner request: `"&".join(s for s in selection if not FUNCTION.match(s))` -/
+/-- the query string of the inner request: `"&".join(s for s in selection if not is_call(s))` -/
 def stripped (sel : List Str) : Str :=
-  joinWith ['&'] (sel.filter fun s => (functionMatch s).isNone)
+  joinWith ['&'] (sel.filter fun s => !isCallSel s)
 
 /-- what the middleware does with a request -/
 inductive Route where
